@@ -106,6 +106,11 @@ QueryOK(S, e) ==
      THEN e.res.ok /\ SeqSet(e.res.val.hooks) = SeqSet(S.eng.whitelist) /\ Len(e.res.val.hooks) = Len(S.eng.whitelist)
      ELSE IF c = "engine" /\ q = "is_whitelisted"
      THEN e.res.ok /\ e.res.val = (a.address \in SeqSet(S.eng.whitelist))
+     \* (both ask the engine's CONFIGURED insurance fund for the vAMM list: a pointer that no longer names the
+     \*  fund contract makes them fail)
+     ELSE IF c = "engine" /\ q \in {"all_positions", "balance_with_funding_payment"} /\ a.trader \in ConfTraders
+          /\ S.eng.cfg.ifund # "ifund"
+     THEN ~e.res.ok
      ELSE IF c = "engine" /\ q \in {"all_positions", "balance_with_funding_payment"} /\ a.trader \in ConfTraders
           /\ S.ifund.has_list /\ SeqSet(S.ifund.vamms) \subseteq DOMAIN S.vamm
      THEN LET held(v) == S.eng.pos[v][a.trader].exists
